@@ -280,8 +280,9 @@ class SimResult(object):
 
 def run_sim(block, K, vars_, kind='sim', reg_init='sym', mem_init='sym', default_value=0,
             track='all', input_names=None, assumptions=(), regmap_key=None, memmap_key=None,
-            after_step=None, max_paths=256, inputs_override=None):
+            after_step=None, max_paths=256, inputs_override=None, catch=None):
     """Symbolically run the real simulator for K cycles. Must be called inside sym_env().
+    catch: exception classes a caller's loop would catch around step() and go on stepping (rtl_assert exceptions)
 
     reg_init: 'sym' (fresh variable per register through register_value_map) | 'reset' (no map given)
               | dict name->value
@@ -337,7 +338,13 @@ def run_sim(block, K, vars_, kind='sim', reg_init='sym', mem_init='sym', default
                 ins = {}
                 for w in inputs:
                     ins[w.name] = SymInt.mk(vars_.inp(w.name, t, w.bitwidth), False)
-            sim.step(ins)
+            if catch:
+                try:
+                    sim.step(ins)
+                except catch:
+                    pass
+            else:
+                sim.step(ins)
             if after_step is not None:
                 extra.append(after_step(sim, t))
         res = {'trace': {w.name: list(tracer.trace[w.name]) for w in tracked if w.name in tracer.trace},
